@@ -265,6 +265,7 @@ Inductive bv := BVContinue | BVObject | BVArray | BVLiteral | BVTypesShortcut.
 Section States.
 Variable c : byte.
 Variable la : bytes.
+Variable pb : option byte.      (* the byte before [c]: s.data[s.index-2], when s.index >= 2 *)
 Variable k : st -> sc -> res sc.
 
 (* s.index < s.dataSize && s.data[s.index] == n *)
@@ -375,12 +376,16 @@ Definition st_found_object_key_begin (s : sc) : res sc :=
   if nl then
     let s := found NewLine s in
     let s := if ann_none s then set_allow true s else s in
-    ROk (set_step FoundObjectKeyBeginAfterNewLine s)
+    (* fix 542fa4b: the LF of a CRLF whose CR was read by another state (the end of an inline annotation) *)
+    if (ch c 10 && match pb with Some x => ch x 13 | None => false end)%bool then ROk s
+    else ROk (set_step FoundObjectKeyBeginAfterNewLine s)
   else if is_blank c then ROk s
   else if is_annotation_start c then switch_to_annotation s
   else if is_comment_start s c then switch_to_comment s
-  else if ch c 64 then begin_key_shortcut s
-  else key_begin_tail s.
+  else
+    let s := if ann_none s then set_allow true s else s in      (* fix 2daaa0c: the next property begins *)
+    if ch c 64 then begin_key_shortcut s
+    else key_begin_tail s.
 
 Definition st_found_object_key_begin_after_new_line (s : sc) : res sc :=
   do nl <- is_new_line s c ;
@@ -425,6 +430,7 @@ Definition st_found_array_item_begin_or_empty (s : sc) : res sc :=
 Definition st_found_array_item_begin (s : sc) : res sc :=
   if is_comment_start s c then switch_to_comment s
   else
+    let s := if (ann_none s && is_nl c)%bool then set_allow true s else s in     (* fix 2daaa0c *)
     do rs <- st_begin_value s ;
     let '(r, s) := rs in
     ROk (switch_begin [ArrayItemBegin] false r (allow_annotation_for_array_item r s)).
@@ -451,7 +457,7 @@ Definition st_after_object_value (s : sc) : res sc :=
 
 Definition st_after_array_item (s : sc) : res sc :=
   do nl <- is_new_line s c ;
-  if nl then ROk (found NewLine s)
+  if nl then ROk (let s := found NewLine s in if ann_none s then set_allow true s else s)     (* fix 2daaa0c *)
   else if is_blank c then ROk s
   else if is_annotation_start c then switch_to_annotation s
   else if is_comment_start s c then switch_to_comment s
@@ -648,8 +654,14 @@ Definition st_inline_annotation_text (s : sc) : res sc :=
     ROk (leave_inline_annotation (set_step (NoAnnot f) s))
   else if ch c 35 then
     if is_inside_multi_line_annotation s then ROk s
-    else ROk (set_step InlineAnnotationTextSkip
-                (found InlineAnnotationEnd (found InlineAnnotationTextEnd s)))
+    else
+      let s := set_step InlineAnnotationTextSkip
+                 (found InlineAnnotationEnd (found InlineAnnotationTextEnd s)) in
+      (* fix 0196ace: `###` opens a block comment, which may go on in the next lines *)
+      match la with
+      | x :: y :: _ => if (ch x 35 && ch y 35)%bool then switch_to_comment s else ROk s
+      | _ => ROk s
+      end
   else ROk s.
 
 Definition st_inline_annotation (s : sc) : res sc :=
@@ -722,12 +734,14 @@ Definition st_in_annotation_object_key (s : sc) : res sc :=
   if (N.eqb b 0 && ch c 58)%bool then st_end_value s
   else if N.eqb (bN c) b then ROk (set_step EndValue s)
   else if is_space c then ROk (set_step InAnnotationObjectKeyAfter s)     (* fix 06c1d2a: bytes.IsSpace *)
+  else if (match s_ann s with AMulti => true | _ => false end && is_nl c)%bool then st_end_value s    (* fix d5e4e81 *)
   else if (is_ctl c || ch c 34 || is_nl c)%bool then err_key
   else ROk s.
 
 Definition st_in_annotation_object_key_after (s : sc) : res sc :=
   if (N.eqb (s_bnd s) 0 && ch c 58)%bool then st_end_value s
   else if is_space c then ROk s
+  else if (match s_ann s with AMulti => true | _ => false end && is_nl c)%bool then st_end_value s    (* fix d5e4e81 *)
   else err_key.
 
 (* f(s, c) for a stored step function f *)
@@ -798,10 +812,10 @@ End States.
 (* "s.step(s, c)": the nesting of calls through the step variable is bounded (NoAnnot around a
    popped step; stateEndValue -> popped step in lengthComputing mode); running out of fuel is
    reported as a panic and does not happen on the differential test *)
-Fixpoint call (fuel : nat) (c : byte) (la : bytes) (f : st) (s : sc) : res sc :=
+Fixpoint call (fuel : nat) (c : byte) (la : bytes) (pb : option byte) (f : st) (s : sc) : res sc :=
   match fuel with
   | O => RPanic
-  | S n => dispatch c la (call n c la) f s
+  | S n => dispatch c la pb (call n c la pb) f s
   end.
 Definition call_fuel : nat := 16.
 
@@ -866,7 +880,7 @@ Fixpoint read_byte (fuel : nat) (s : sc) (idx : N) (pb : option byte) (c : byte)
   match fuel with
   | O => (acc, inr Panic)
   | S fuel' =>
-    match call call_fuel c la (s_step s) s with
+    match call call_fuel c la pb (s_step s) s with
     | RErr code => (acc, inr (Err code idx))
     | RPanic => (acc, inr Panic)
     | ROk s1 =>
